@@ -115,6 +115,21 @@ Fixpoint dedup_ids (l : list (N * N)) : list (N * N) :=
 Definition nets_of (f : dfile) (m : mapid) : list subnet :=
   map nl_net (filter (fun n => id_eqb (nl_map n) m) (f_nets f)).
 
+(* RocksDB keeps one record per key: the values added under the same key are
+   concatenated (multi-value); the order of the chunks is not modelled *)
+Fixpoint merge_dups (fuel : nat) (db : list kv) : list kv :=
+  match fuel with
+  | O => db
+  | S f =>
+      match db with
+      | [] => []
+      | (k, v) :: r =>
+          let same := filter (fun e => bytes_eqb (fst e) k) r in
+          let rest := filter (fun e => negb (bytes_eqb (fst e) k)) r in
+          (k, v ++ concat (map snd same)) :: merge_dups f rest
+      end
+  end.
+
 Section Compile.
   Variable sort : list point -> list point.
 
@@ -134,7 +149,8 @@ Section Compile.
     | None => Err 2
     | Some ms =>
         rbind (rp_kvs_maps f (dedup_ids (map nl_map (f_nets f)))) (fun rp =>
-        Ok ((features_key, mv1 [if v2 then 2 else 1; 0; 0; 0]) :: ms ++ rp))
+        let all := (features_key, mv1 [if v2 then 2 else 1; 0; 0; 0]) :: ms ++ rp in
+        Ok (merge_dups (length all) all))
     end.
 End Compile.
 
